@@ -180,10 +180,35 @@ type RunCase struct {
 	Debug    bool `json:"debug,omitempty"`
 	Validate bool `json:"validate,omitempty"`
 	CfgOnly  bool `json:"cfgonly,omitempty"`
+	// Lists: what a third of the nodes hold instead of a single value: 1 a leaf-list without entries, 2 one with several
+	Lists int `json:"lists,omitempty"`
+}
+
+// listValues installs the leaf-list answers of the case on a tree.
+func (c RunCase) listValues(tr *tree.Tree) {
+	if c.Lists == 0 {
+		return
+	}
+	tr.ValueOf = func(id tree.ID) (xpath.Datum, error) {
+		s := id.String()
+		h := 0
+		for _, ch := range s {
+			h = h*31 + int(ch)
+		}
+		if h%3 != 0 {
+			return xpath.NewLiteralDatum(tree.DefaultValue(id)), nil
+		}
+		var ds []xpath.Datum
+		if c.Lists == 2 {
+			ds = []xpath.Datum{xpath.NewLiteralDatum(tree.DefaultValue(id)), xpath.NewLiteralDatum("second"), xpath.NewLiteralDatum("3")}
+		}
+		return xpath.NewDatumSliceDatum(ds), nil
+	}
 }
 
 // run applies the case's context options and runs the machine.
 func (c RunCase) run(m *xpath.Machine, tr *tree.Tree) *xpath.Result {
+	c.listValues(tr)
 	ctx := xpath.NewCtxFromMach(m, nil)
 	if c.Mode != "mach" {
 		ctx = xpath.NewCtxFromCurrent(context.Background(), m, tr.At(c.Ctx))
@@ -245,6 +270,7 @@ func genRun(t *rapid.T) RunCase {
 	c.Debug = rapid.IntRange(0, 2).Draw(t, "debug") == 1
 	c.Validate = rapid.IntRange(0, 3).Draw(t, "validate") == 1
 	c.CfgOnly = rapid.IntRange(0, 4).Draw(t, "cfgonly") == 1
+	c.Lists = []int{0, 0, 1, 2}[rapid.IntRange(0, 3).Draw(t, "lists")]
 	return c
 }
 
@@ -296,7 +322,7 @@ func checkRun(c RunCase) fw.Outcome {
 		out.Labels = append(out.Labels, "does-not-compile")
 		return out
 	}
-	out.Key = c.Grammar + "|" + string(c.Src) + "@" + c.Ctx.String() + c.Mode + fmt.Sprint(c.Debug, c.Validate, c.CfgOnly)
+	out.Key = c.Grammar + "|" + string(c.Src) + "@" + c.Ctx.String() + c.Mode + fmt.Sprint(c.Debug, c.Validate, c.CfgOnly, c.Lists)
 	var res *xpath.Result
 	var tr *tree.Tree
 	done := fw.WithTimeout(20, func() { res, tr = runOnce(m, c, 0) })
@@ -349,7 +375,7 @@ func checkFault(c RunCase) fw.Outcome {
 	}
 	_, tr0 := runOnce(m, c, 0)
 	n := tr0.Calls()
-	out.Key = c.Grammar + "|" + string(c.Src) + "@" + c.Ctx.String() + fmt.Sprint(c.Debug, c.Validate, c.CfgOnly)
+	out.Key = c.Grammar + "|" + string(c.Src) + "@" + c.Ctx.String() + fmt.Sprint(c.Debug, c.Validate, c.CfgOnly, c.Lists)
 	out.Labels = append(out.Labels, fmt.Sprintf("callbacks:%d", min(n, 9)))
 	out.NonTrivial = n >= 2
 	faultRuns.Add(int64(n))
